@@ -91,12 +91,12 @@ class ExprMixin:
     BUILTINS = {"len", "range", "int", "float", "abs", "min", "max", "isinstance", "enumerate", "zip", "list", "tuple",
                 "str", "slice", "print", "all", "any", "sum", "divmod", "bool", "sorted", "hasattr", "getattr", "iter",
                 "next", "repr", "type", "round", "map", "dict", "set", "id", "reversed", "pow", "callable", "open",
-                "super", "object", "bytes", "ndarray", "copy", "eval", "format", "isstring"}
+                "super", "object", "bytes", "ndarray", "copy", "eval", "format", "isstring", "c_trunc", "c_div", "c_mod"}
     SPEC_BUILTINS = {"old", "implies", "org", "prov", "upd", "permutation", "is_sorted", "forall", "exists", "ite",
                      "real", "unit", "fresh", "same_object", "shares_buffer", "defined", "is_none", "count_true",
                      "SUM", "sqrt", "field", "arr_eq", "abs_", "floor", "is_int", "shape0", "shape1", "nfields",
                      "isarray", "ufn", "trunc", "apply", "pairs_kept", "nyielded", "consumed", "nitems", "item",
-                     "yields_items_of", "mapped", "induct", "assume_axiom", "chunk_off", "defined_len"}
+                     "yields_items_of", "mapped", "induct", "assume_axiom", "chunk_off", "defined_len", "is_permutation"}
 
     def builtin(self, name):
         if name in EXC_NAMES:
@@ -258,6 +258,9 @@ class ExprMixin:
         if opn == "Div":
             if not fr.spec:
                 self.oblige(st, y != 0, "safety", "div-by-zero", node, fr)
+            if "div" in getattr(self, "abstract", ()) and as_const(y) is None:
+                from .nplib import ufunc, R
+                return ufunc("RDIV", R, R, R)(x, y)
             return x / y
         if opn == "FloorDiv":
             if not fr.spec:
